@@ -123,7 +123,8 @@ RH = {
  "C05": "index-domain (tensor number vs block number) rule over the multi-iterator; rewind-and-gate rule on its masked constructor",
  "C15": "rewind-and-gate rule on the masked multi-iterator constructor",
  "C07": "float32/float64 option-handler mirror pair; alias-test rule on copy-then-accumulate into the reuse tensor",
- "C20": "alias-test rule on copy-then-accumulate into the reuse tensor (float engines)",
+ "C20": "alias-test rule on copy-then-accumulate into the reuse tensor (float engines); data-order gate on the in-place transposer's index decomposition",
+ "C03": "data-order gate on the in-place transposer's index decomposition",
  "C17": "iterator-driven-fill rule over the typed arms of memsetIter",
  "C19": "field-freshness rule on the sparse clone (SSA)",
 }
